@@ -18,7 +18,7 @@ def run(ck):
     sys_eval = ck.stats.get("direct_clauses_evaluated", 0)
     sys_scn = ck.stats.get("scenarios", 0)
     if ck.build_harness("brokerconn"):
-        os.environ["BC_FAMILY"] = "c20,c16,c12" if ck.tier == "quick" else "all"
+        os.environ["BC_FAMILY"] = "c20,c16,c12,c15" if ck.tier == "quick" else "all"  # c15: resume with more stored packets than window slots (seed C15-11)
         path, _ = ck.harness("bc")
         lines = ck.model("brokerconn", "bc", path)
         traces = {}
@@ -123,5 +123,7 @@ def run(ck):
                "backend that is slow with a publisher's first message (log_publish_serial, order); a backlogged subscriber; back-pressure bursts "
                "(in_order, progress); real client.Service publishers and client.Client subscribers around the broker (order_e2e); on every backend "
                "log: log_restore_first; plus clauses c15_in_order, c15_release_intact, c15_resend_order, c15_dequeue_order, c15_resend_first on "
-               "broker-connection traces; plus the fifo clause of the service monitor on the service scenarios (client.Service command queue); plus "
+               "broker-connection traces (family c15: a session resumed with more stored outgoing packets than the new connection has window slots - "
+               "window lowered between two connections to 1..3 with 1..3 packets beyond it, QoS 1 / 2 / mixed, PUBREL states; stray and duplicate "
+               "acknowledgements at a constant window of 2..3 - everything listed is re-sent in listing order before Restore); plus the fifo clause of the service monitor on the service scenarios (client.Service command queue); plus "
                "the client_in_order scanner on client traces (bursts of PUBLISH/PUBREL handed over at once, callback errors)")
